@@ -5,10 +5,15 @@
 mod util;
 mod s_deblock;
 mod s_yuv;
+mod s_decode;
 
 fn main() {
     // Panics are expected outcomes here; keep stderr quiet.
-    std::panic::set_hook(Box::new(|_| {}));
+    if std::env::var("VERIF_PANIC_MSG").is_ok() {
+        std::panic::set_hook(Box::new(|info| eprintln!("PANIC {}", info)));
+    } else {
+        std::panic::set_hook(Box::new(|_| {}));
+    }
     let args: Vec<String> = std::env::args().collect();
     if args.len() < 2 {
         eprintln!("usage: harness <suite> [args]");
@@ -22,6 +27,8 @@ fn main() {
         "strength-table" => s_deblock::strength_table(),
         "yuv-px" => s_yuv::px(&rest[0], &rest[1], &rest[2], &rest[3]),
         "yuv-img" => s_yuv::img(&rest[0]),
+        "decode" => s_decode::decode(&rest[0], &rest[1]),
+        "header" => s_decode::header(&rest[0]),
         other => {
             eprintln!("unknown suite {other}");
             std::process::exit(2);
